@@ -168,6 +168,8 @@ def value_eq_call(I, fr, x, y, negate=False):
             # structural with recursive calls into element equality
             return struct_eq(I, fr, x, y, negate)
         raise Unsupported('PartialEq for ' + x.ty)
+    if isinstance(x, AddrV) and isinstance(y, AddrV):
+        return value_eq_call(I, fr, x.inner, y.inner, negate)
     if isinstance(x, Seq) and isinstance(y, Seq):
         if len(x.items) != len(y.items):
             return negate
@@ -1574,6 +1576,36 @@ def m_iter_find(I, fr, a, ck):
     return res
 
 
+def m_iter_minmax(I, fr, a, ck):
+    """Iterator::min / max by Ord (min: first of the minima, max: last of the maxima)"""
+    it = to_iter(I, fr, a[0])
+    res = Outs()
+    for g, acc, mem in drain(I, fr, it):
+        if isinstance(acc, Outcome):
+            res.append(Outcome('panic', g, None, None, acc.msg))
+            continue
+        if not acc:
+            res.append(Outcome('ret', g, NONE, mem))
+            continue
+        best = acc[0]
+        for x in acc[1:]:
+            bx = I.peel_all(best, fr) if isinstance(best, (SRef, MRef)) else best
+            xx = I.peel_all(x, fr) if isinstance(x, (SRef, MRef)) else x
+            o, p = ordering_of(I, fr, xx, bx)
+            lt = o.alts[0][0] if 0 in o.alts else False
+            gt_or_eq = gnot(lt)
+            best = merge(lt, x, best) if ck.method == 'min' else merge(gt_or_eq, x, best)
+        res.append(Outcome('ret', g, some(best), mem))
+    return res
+
+
+def m_rc_as_ptr(I, fr, a, ck):
+    rc = I.peel_all(a[0], fr) if isinstance(a[0], (SRef, MRef)) else a[0]
+    if not isinstance(rc, RcV):
+        raise EngineError('as_ptr on %s' % type(rc).__name__)
+    return AddrV(rc.inner)
+
+
 def m_rc_ptr_eq(I, fr, a, ck):
     x = I.peel_all(a[0], fr)
     y = I.peel_all(a[1], fr)
@@ -1723,9 +1755,13 @@ def register_more(M):
     A(None, 'Iterator', 'zip', m_iter_zip)
     A(None, 'Iterator', 'all', m_iter_all)
     A(None, 'Iterator', 'count', m_iter_count)
+    A(None, 'Iterator', 'min', m_iter_minmax)
+    A(None, 'Iterator', 'max', m_iter_minmax)
     A(None, 'Iterator', 'position', m_iter_position)
     A(None, 'Iterator', 'find', m_iter_find)
     A('Rc', None, 'ptr_eq', m_rc_ptr_eq)
+    A('Rc', None, 'as_ptr', m_rc_as_ptr)
+    A('Rc', None, 'into_raw', m_rc_as_ptr)
     A('Option', None, 'map', m_option_map)
     A('Option', None, 'unwrap_or', m_option_unwrap_or)
     A('Option', None, 'map_or', m_option_map_or)
